@@ -63,11 +63,12 @@ func (m *modInfo) blob() map[string]any {
 }
 
 type driver struct {
-	c     *core.Ctx
-	work  string
-	mods  []*modInfo
-	evals int64
-	seq   int
+	deaths map[string]bool
+	c      *core.Ctx
+	work   string
+	mods   []*modInfo
+	evals  int64
+	seq    int
 }
 
 func (d *driver) newDir(kind string) string {
@@ -123,7 +124,8 @@ func run(c *core.Ctx) int {
 		return 2
 	}
 	defer os.RemoveAll(work)
-	d := &driver{c: c, work: work}
+	d := &driver{c: c, work: work, deaths: map[string]bool{}}
+	os.RemoveAll(filepath.Join(c.Out, "children")) // leftovers of earlier runs of this check
 
 	d.phaseRef()
 	if len(d.mods) < 10 {
@@ -332,6 +334,10 @@ func (d *driver) decideUse(e useExpect, job useJob, r core.CaseResult) string {
 		}
 		c.Violate(sig, fmt.Sprintf("module %s, %s %s: the process that used the cache directory died: %s", m.Name, e.kind, job.Tag, r.Crash.Detail), wit(map[string]any{"crash": r.Crash}))
 		c.Count(e.kind+"_outcome:died", 1)
+		if d.deaths[sig] {
+			cleanChildFiles(r.Crash) // keep the supervisor's files of the first death per signature only
+		}
+		d.deaths[sig] = true
 		return "died"
 	}
 	var o useOut
